@@ -20,6 +20,7 @@ import Cosi.Driver.Cache
 import Cosi.Driver.Restart
 import Cosi.Driver.Codec
 import Cosi.Driver.RWatch
+import Cosi.Driver.Remote
 
 open Cosi
 
@@ -47,7 +48,8 @@ def engines : List (String × Engine) := [
   ("cacherun", ⟨Driver.Cache.RSt, Driver.Cache.rinit, Driver.Cache.stepRun⟩),
   ("faults", ⟨Driver.Restart.St, Driver.Restart.init, Driver.Restart.stepLine⟩),
   ("codec", ⟨Driver.Codec.St, Driver.Codec.init, Driver.Codec.stepLine⟩),
-  ("rwatch", ⟨Driver.RWatch.St, Driver.RWatch.init, Driver.RWatch.stepLine⟩)
+  ("rwatch", ⟨Driver.RWatch.St, Driver.RWatch.init, Driver.RWatch.stepLine⟩),
+  ("grpc", ⟨Driver.Remote.St, Driver.Remote.init, Driver.Remote.stepLine⟩)
 ]
 
 partial def loop (e : Engine) (spec : Bool) (inp : IO.FS.Stream) (out : IO.FS.Stream) (st : e.σ) : IO Unit := do
